@@ -1253,6 +1253,76 @@ def run_conc(res, tier, seed, exe_unused, rounds, rep, tabs, model_rounds, varia
     return stats
 
 
+# ------------------------------------------------------------------ the read timeout as applied to the connection
+def run_deadline(res, exe):
+    """behavioural half of 'the 60 s read timeout the service applies to the connection' (TestVerifC14Deadline): an llrp.Client with
+    the timeout the device's own client carries, behind a net.Conn that records every deadline call, facing a reader that goes
+    silent while the client keeps writing; and a scaled-down run that measures when the connection is given up"""
+    T = KA_DOC["read_timeout_ms"]
+    reqs = [{"k": "dev", "writes": 5}, {"k": "scaled", "scale_ms": 400, "every_ms": 100, "budget_ms": 2400}]
+    rc, out, glog = vlib.run_harness(exe, "TestVerifC14Deadline", "\n".join(json.dumps(r) for r in reqs) + "\n", timeout=120, tag="_dl")
+    if rc != 0 or len(out) != len(reqs):
+        res.violation("harness-run", "Go harness (deadline observation) failed (rc=%s, %d/%d answers): %s" % (rc, len(out), len(reqs), glog[-1500:]),
+                      dict(kind="harness", log=glog[-3000:]), False)
+        return {}
+    dev, sc = json.loads(out[0]), json.loads(out[1])
+    movers = ("SetDeadline", "SetReadDeadline")
+    rp = dict(kind="scenario", correspondence="C14/read-timeout-applied-to-connection", cases=[], requests=reqs)
+
+    def during_silence(a):
+        ev = a["events"][a["mark"]:]
+        for i, e in enumerate(ev):
+            if e["op"] == "ReadRet":
+                return ev[:i]
+        return ev
+    stats = dict(timeout_ms=dev["timeout_ms"], writes_during_silence=dev["written"], scaled=dict(timeout_ms=sc["timeout_ms"],
+                 written=sc["written"], dropped_after_ms=(sc["dropped_ms"] - sc["silent_at_ms"]) if sc["dropped_ms"] >= 0 else None))
+    if dev.get("note") or dev["written"] < reqs[0]["writes"]:
+        if dev["timeout_ms"] <= 0:
+            res.violation("keepalive-constants", "the llrp.Client the device builds has no read timeout (%s ms); documented: %d ms" % (dev["timeout_ms"], T),
+                          dict(rp, observed=dev))
+        else:
+            res.violation("harness-run", "deadline scenario did not run as scripted: %s (written %d)" % (dev.get("note"), dev["written"]),
+                          dict(kind="harness", observed=dev), False)
+        return stats
+    # (a) the read deadlines the client arms are now + the documented read timeout = 2 x the enforced KeepAlive interval
+    armed = [e for e in dev["events"] if e["op"] in movers and not e.get("zero")]
+    wrong = [e for e in armed if not (T - 2000 <= e["delta_ms"] <= T)]
+    before = [e for e in dev["events"][:dev["mark"]] if e["op"] in movers]
+    if dev["timeout_ms"] != T or T != 2 * KA_DOC["interval_ms"] or wrong or not before or before[-1].get("zero"):
+        res.violation("read-deadline-not-read-timeout",
+                      "an llrp.Client with the device's timeout (%d ms) arms read deadlines %s ms ahead (last one before the reader went silent: %s); "
+                      "documented: the read timeout applied to the connection is %d ms = 2 x the enforced KeepAlive interval of %d ms" % (
+                          dev["timeout_ms"], sorted({e["delta_ms"] for e in armed})[:6], before[-1] if before else "none", T, KA_DOC["interval_ms"]),
+                      dict(rp, observed=dict(dev, events=dev["events"][:60])))
+    # (b) while the read side is parked waiting for a silent reader, nothing the client does may move the read deadline
+    moved = [e for e in during_silence(dev) if e["op"] in movers]
+    if moved:
+        res.violation("read-timeout-extended-by-writes",
+                      "the reader went silent %d ms after connecting (socket open); with its read side parked in Read the client made %d Write calls (5 messages) — and "
+                      "%d %s call(s) made meanwhile moved the READ deadline to now + %d ms each time (first at %d ms, last at %d ms): a reader that stays "
+                      "silent is tolerated for as long as the service keeps writing (commands, polling, KeepAliveAcks), not for the documented %d ms "
+                      "= 2 x the %d ms KeepAlive interval" % (dev["silent_at_ms"], dev["written"], len(moved), "/".join(sorted({e["op"] for e in moved})),
+                                                              moved[0]["delta_ms"], moved[0]["at_ms"], moved[-1]["at_ms"], T, KA_DOC["interval_ms"]),
+                      dict(rp, observed=dict(dev, events=dev["events"][max(0, dev["mark"] - 4):dev["mark"] + 40])))
+    # scaled-down measurement: timeout 400 ms, a message written every 100 ms: the connection must be given up (timing: re-run alone,
+    # slower, before it is judged)
+    if sc["dropped_ms"] < 0:
+        again = {"k": "scaled", "scale_ms": 1000, "every_ms": 250, "budget_ms": 6000}
+        rc2, out2, _ = vlib.run_harness(exe, "TestVerifC14Deadline", json.dumps(again) + "\n", timeout=120, tag="_dl2")
+        sc2 = json.loads(out2[0]) if rc2 == 0 and out2 else None
+        if sc2 is None or sc2["dropped_ms"] < 0:
+            res.violation("silent-reader-tolerated-while-writing",
+                          "llrp.Client with read timeout %d ms; the reader went silent (socket open) while the client wrote a message every %d ms: after "
+                          "%d ms (%d messages written) the client had still not given the connection up; re-run with %d ms / every %d ms: %s. An idle "
+                          "client gives it up after the timeout." % (sc["timeout_ms"], reqs[1]["every_ms"], reqs[1]["budget_ms"], sc["written"],
+                                                                    again["scale_ms"], again["every_ms"],
+                                                                    "still connected after %d ms" % again["budget_ms"] if sc2 else "harness failed"),
+                          dict(rp, requests=[reqs[1], again], observed=dict(first=dict(sc, events=sc["events"][sc["mark"]:sc["mark"] + 30]),
+                                                                           second=dict(sc2, events=sc2["events"][sc2["mark"]:sc2["mark"] + 30]) if sc2 else None)))
+    return stats
+
+
 def run(tier, seed, replay=None):
     res = vlib.Result(PID, tier, seed)
     res.assumptions = vlib.TRUSTED_COMMON + [
@@ -1357,6 +1427,8 @@ def run(tier, seed, replay=None):
             res.violation("model-constants", "model constants %s differ from the running code's %s" % (consts, k),
                           dict(rpd, expected=consts), False)
         fr = canon_go(a["frames"])
+        if how == "silent":    # polls written during the silence may be repeated on the new connection
+            fr = [f for f in fr if not (f[0] == "m" and f[1] == MT["GetReaderCapabilities"])]
         if fr != [["cfg", 0, [KA_DOC["tlv_body_hex"]], []]] or not a.get("fence"):
             res.violation("keepalive-on-connect", "%s: the reader received %s (fence ok=%s, %s); expected exactly one SetReaderConfig with "
                           "KeepAliveSpec periodic 30000 ms" % (label, fr, a.get("fence"), a.get("note", "")),
@@ -1367,7 +1439,7 @@ def run(tier, seed, replay=None):
             el = a.get("elapsed_ms") or 0
             if "no new connection" in a.get("note", "") or not (want[0] < el <= want[1] + 20000):
                 res.violation("silent-peer-not-detected-by-read-timeout",
-                              "%s: the previous connection's peer went silent (socket open, nothing sent); the device %s; the documented read "
+                              "%s: the previous connection's peer went silent (socket open, nothing sent) while the service kept writing a read command every 5 s; the device %s; the documented read "
                               "timeout is %d ms with KeepAlives every %d ms" % (label, "redialled after %d ms" % el if "no new connection" not in
                                                                                  a.get("note", "") else "had not given up the connection after %d ms" % el,
                                                                                  want[1], want[0]),
@@ -1461,6 +1533,7 @@ def run(tier, seed, replay=None):
         res.violation("write-AccessSpec-not-AddAccessSpec", msg, rp)
     conc_stats = run_conc(res, tier, seed, exe, rounds, conc_rep, tabs, model_rounds,
                           not (variant_votes["false"] and not variant_votes["true"])) if rounds else {}
+    dl_stats = run_deadline(res, exe)
     if variant_votes["true"] and variant_votes["false"]:
         res.violation("model-variant-mixed", "Go behaves like the model with the AccessSpec case on %d inputs and without it on %d" % (
             variant_votes["true"], variant_votes["false"]), dict(kind="correspondence", correspondence="C14/Driver-vs-Commands.v"), False)
@@ -1481,6 +1554,9 @@ def run(tier, seed, replay=None):
                                "executed %d times; every request the scripted readers received is matched to the command that documents it "
                                "(multiset per device, order per caller), verdicts per command; the same rounds run on the machine of "
                                "coq/Driver/Commands.v under two schedules" % (NDEV, conc_rep)),
+        read_timeout_on_connection=dict(dl_stats, rule="llrp.Client with the timeout of the device's own client behind a recording net.Conn, reader silent, "
+                                        "client writing: calls that move the read deadline while Read is parked (none allowed), value of the armed read "
+                                        "deadlines (60 s = 2 x 30 s); scaled run (400 ms, a write every 100 ms): the connection is given up"),
         samples=samples, input_distribution=dist, traces_validated_against_impl=evals + conc_stats.get("commands", 0),
         extreme_documents_rejected_by_encoder=encoder_rejected,
         constants_from_running_code=k, connections=conn_log, cases_per_connection=per_conn, model_constants=consts, model_variant_votes=variant_votes,
